@@ -123,7 +123,7 @@ def check_schur(case):
                 else:
                     fill = max(fill, v)
         floor = C2 * n * U_ * (n + sweeps) * an
-        tb = 10.0 * tau * max(1.0, an) + floor + 1e-300
+        tb = 30.0 * tau * max(1.0, an) + floor + 1e-300
         out.le(site + ":converged implies negligible first sub-diagonal", sub, tb,
                f"max |T_(i+1,i)|, ||A||={an:.3e} n={n} sweeps={sweeps}")
         out.le(site + ":converged implies nothing below the first sub-diagonal", fill, tb,
@@ -135,7 +135,7 @@ def check_schur(case):
                 for j in range(n):
                     if i != j:
                         off = max(off, float(ref.modulus(Tf[i, j])))
-            out.le(site + ":Hermitian input gives diagonal T", off, 10.0 * tau * max(1.0, an) + 2 * simerr + 1e-300)
+            out.le(site + ":Hermitian input gives diagonal T", off, 30.0 * tau * max(1.0, an) + 2 * simerr + 1e-300)
             d = np.array([Tf[i, i, 0] for i in range(n)])
             im = max(float(np.sqrt(np.sum(Tf[i, i, 1:] ** 2))) for i in range(n))
             out.le(site + ":Hermitian input gives real diagonal", im, 10.0 * tau * max(1.0, an) + 2 * simerr + 1e-300)
